@@ -29,7 +29,17 @@ func (p *Prog) ErrTypeGlobal() *ssa.Global {
 			return
 		}
 		el, ok := st.Val.(*ssa.Call)
-		if !ok || !el.Common().IsInvoke() || el.Common().Method.Name() != "Elem" {
+		if !ok {
+			return
+		}
+		// reflect.TypeFor[error]() — the generic spelling of the same descriptor
+		if pk, fn := StdCallee(el.Common().StaticCallee()); pk == "reflect" && fn == "TypeFor" {
+			if ta := el.Common().StaticCallee().TypeArgs(); len(ta) == 1 && types.Identical(ta[0], types.Universe.Lookup("error").Type()) {
+				p.errG = g
+			}
+			return
+		}
+		if !el.Common().IsInvoke() || el.Common().Method.Name() != "Elem" {
 			return
 		}
 		to, ok := el.Common().Value.(*ssa.Call)
